@@ -5,4 +5,4 @@ CONSTANTS
   Payloads <- Pay2
   ByzDigests <- DAll
   AllowOmit = TRUE
-INVARIANTS Agreement Validity Consistency
+INVARIANTS Agreement Validity Consistency PrintBehaviour
